@@ -67,7 +67,8 @@ def _graph_obs(tg, with_deps=False):
     g = [labels, sorted([pos[a], pos[b]] for a, b in tg.graph.edges)]
     if with_deps:
         # the producer-consumer dependencies of a node, read off the arguments it stores: the deferred objects
-        # one container level deep (what add_edge is meant to record) and at any depth (what evaluate_lazy evaluates)
+        # that add_edge is meant to record (since the repair of add_edge: at any container depth, like evaluate_lazy;
+        # Model/LazyXref.v deps_edge) and those that evaluate_lazy evaluates (deps_all)
         def walk(v, depth, maxd, acc):
             if isinstance(v, _LazyFunction):
                 acc.add(pos[v._id])
@@ -83,7 +84,7 @@ def _graph_obs(tg, with_deps=False):
             lf = tg.mapping[i]
             a1, a2 = set(), set()
             for v in [*lf.args, *lf.kwargs.values()]:
-                walk(v, 0, 1, a1)
+                walk(v, 0, 10**6, a1)
                 walk(v, 0, 10**6, a2)
             d1.append(sorted(a1))
             dall.append(sorted(a2))
@@ -302,15 +303,7 @@ def distribution(c):
 
 
 def finding_id(c, impl_obs, kind):
-    """c18-nested-container-dependency-not-recorded: the recorded edges are exactly the dependencies one container
-    level deep, and some node has a dependency nested deeper (evaluate_lazy evaluates it, add_edge does not see it)."""
-    if c.get("kind") == "seq" and c.get("dag") and isinstance(impl_obs, list) and len(impl_obs) == 5:
-        g = impl_obs[4]
-        if isinstance(g, list) and len(g) == 4:
-            _labels, edges, d1, dall = g
-            want1 = sorted([d, i] for i, ds in enumerate(d1) for d in ds)
-            if sorted(edges) == want1 and d1 != dall:
-                return "c18-nested-container-dependency-not-recorded"
+    """No known finding is left for C18 (c18-nested-container-dependency-not-recorded is repaired)."""
     return None
 
 
